@@ -51,9 +51,15 @@ def wrapped(cfgkey):
         def mkb(name=name, fn=fn):
             def w(state, startLine, endLine, silent):
                 l0, n0, v0 = state.line, len(state.tokens), state.level
+                t0 = (state.bMarks[:], state.eMarks[:], state.tShift[:], state.sCount[:], state.bsCount[:],
+                      state.blkIndent, state.listIndent, state.parentType)
                 r = fn(state, startLine, endLine, silent)
+                t1 = (state.bMarks, state.eMarks, state.tShift, state.sCount, state.bsCount)
+                same = 1 if all(a == b for a, b in zip(t0, t1)) else 0
+                ctx = 1 if (state.blkIndent, state.listIndent) == t0[5:7] else 0
+                pty = 1 if state.parentType == t0[7] else 0
                 log.append(["b", name, 1 if silent else 0, 1 if r else 0, startLine, endLine, l0, state.line, n0,
-                            len(state.tokens), v0, state.level])
+                            len(state.tokens), v0, state.level, same, ctx, pty])
                 return r
             return w
         md.block.ruler.at(name, mkb(), {"alt": alt.get(name, [])})
@@ -83,7 +89,68 @@ def record(job):
     return {"core": core, "ev": log[:6000]}, out
 
 
+def linetable_record(src):
+    """A freshly constructed StateBlock: its five arrays and a battery of reader calls."""
+    from markdown_it import MarkdownIt
+    from markdown_it.rules_block.state_block import StateBlock
+
+    if not _LT:
+        _LT.append(MarkdownIt("commonmark"))
+    st = StateBlock(src, _LT[0], {}, [])
+    n = len(st.bMarks)
+    tab = [[st.bMarks[k], st.eMarks[k], st.tShift[k], st.sCount[k], st.bsCount[k]] for k in range(n)]
+    q = []
+    L = len(src)
+    for k in range(min(st.lineMax + 1, 8)):
+        q.append(["isEmpty", [k], 1 if st.isEmpty(k) else 0])
+        q.append(["skipEmptyLines", [k], st.skipEmptyLines(k)])
+    for p in sorted({0, 1, 2, L // 2, L - 1, L, L + 1} & set(range(0, L + 2))):
+        q.append(["skipSpaces", [p], st.skipSpaces(p)])
+        if p <= L:
+            for m in (0, p // 2):
+                q.append(["skipSpacesBack", [p, m], st.skipSpacesBack(p, m)])
+            for ch in sorted(set(src[max(0, p - 1): p + 1])):
+                q.append(["skipCharsStr", [p, ord(ch)], st.skipCharsStr(p, ch)])
+                q.append(["skipCharsStrBack", [p, ord(ch), 0], st.skipCharsStrBack(p, ch, 0)])
+    lm = st.lineMax
+    for b in range(min(lm, 3)):
+        for e in sorted({b + 1, lm}):
+            for ind in (0, 1, 2, 3, 4, 5, 8):
+                for keep in (0, 1):
+                    q.append(["getLines", [b, e, ind, keep], C.cps(st.getLines(b, e, ind, bool(keep)))])
+    return {"src": C.cps(src), "tab": tab, "lmax": st.lineMax, "q": q}
+
+
+_LT = []
+
+
+def linetable_stage(tier, rep):
+    """LineTable.tla: scanner == declarative table for all short strings (TLC), wrong-tab variant must fail;
+    LineTableTrace.tla: the real StateBlock's arrays and readers on generated sources."""
+    r = C.run_tlc("LineTable", "LineTable.cfg", allow_violation=False)
+    rep.tlc("LineTable[scanner refines the table, all strings <= 7 over {SP, TAB, LF, x}]", r)
+    rw = C.run_tlc("LineTable", "LineTable_wrongtab.cfg")
+    if rw.ok or rw.violated != "ScanRefinesTable":
+        raise C.MachineryError("LineTable wrong-tab variant no longer violates ScanRefinesTable (vacuity guard)")
+    rep.tlc("LineTable[tab stop 8, expected counter-example]", rw)
+    q = tier == "quick"
+    l0 = [d for d in gen.docs("L0", tier, rep) if "\r" not in d and "\x00" not in d]
+    l1 = [d for d in gen.docs("L1", tier, rep, cfg="DocGen_L1_small.cfg" if q else None) if "\r" not in d and "\x00" not in d]
+    srcs = gen.sample(l0, 6000 if q else 60000, C.SEED + 7, keep_short=1500) + gen.sample(l1, 4000 if q else 60000, C.SEED + 8)
+    srcs += [d + "\n" for d in srcs[:1500]] + [d + "  " for d in srcs[:700]] + [d + "\n\t " for d in srcs[:700]]
+    traces = C.pmap(linetable_record, srcs, chunk=300)
+    verdicts, st = C.validate_traces("LineTableTrace", traces, shard=1500, heap="8g")
+    rep.tlc_stats("LineTableTrace", st, len(traces))
+    for src, (v, pos) in zip(srcs, verdicts):
+        if v != "ok":
+            rep.violation(f"linetable:{v}:{json.dumps(src)}", {"engine": "trace", "module": "LineTableTrace", "clause": v,
+                                                                "input": {"linetable_src": src}})
+    rep.cov["line_tables_validated"] = len(traces)
+    rep.cov["reader_calls_validated"] = sum(len(t["q"]) for t in traces)
+
+
 def run(tier, rep):
+    linetable_stage(tier, rep)
     q = tier == "quick"
     l1 = gen.docs("L1", tier, rep, cfg="DocGen_L1_small.cfg" if q else None)
     l2 = gen.docs("L2", tier, rep)
@@ -121,6 +188,11 @@ def run(tier, rep):
 
 def replay(case, rep):
     i = case["input"]
+    if "linetable_src" in i:
+        v, _ = C.validate_traces("LineTableTrace", [linetable_record(i["linetable_src"])])
+        if v[0][0] != "ok":
+            rep.violation(case.get("key", "replay"), case)
+        return
     t, _ = record((gen.cfg_key(i["config"]), i["doc"]))
     v, _ = C.validate_traces("SystemTrace", [t])
     if v[0][0] != "ok":
